@@ -44,7 +44,7 @@ CLAIMS = {
         ref='4/C03'),
     'C04': dict(
         technique=PATHS + '; abstract interpretation of calc_highest over the order abstraction of the ranks; bounded while-loop unrolling',
-        text='play_card (helpers inlined, leader loop summarised) evaluated for every leader x cards-in-trick x highest-trump position x '
+        text='(R7) complete play-outs of the folded engine and four replicas against an oracle of the rules after every card (turn, leader, trick number, tricks taken, recorded tricks, has_done; 24 deals quick / 100 thorough).  play_card (helpers inlined, leader loop summarised or unrolled) evaluated for every leader x cards-in-trick x highest-trump position x '
              'highest-led-suit position: record carries the OLD leader and the cards incl. this one, new leader = trump winner else winner of '
              'the suit of card 0, one +1 to the NEW leader\'s side, turn/trick bookkeeping; calc_highest folded with order-abstract ranks (values that admit only order comparisons; any other use is an analysis '
              'error) on every asked suit x suits of the 4 cards x weak order of the ranks; fourth-card rule folded on the real engine; constructor (dummy, opening leader, passed-out '
@@ -52,16 +52,16 @@ CLAIMS = {
         ref='4/C04'),
     'C05': dict(
         technique=PATHS + '; who-may-write scan',
-        text='Both play_card_by_player overrides evaluated for every (seat on turn x seat named x observer x dummy x card held or not x dummy '
+        text='(R6) on the complete play-outs: offending plays (card of another seat, card already played, seat out of turn) tried on clones at every fourth step are refused without any change, accepted plays move exactly the card, hands + played cards stay the 52 cards.  Both play_card_by_player overrides evaluated for every (seat on turn x seat named x observer x dummy x card held or not x dummy '
              'disclosed or not): refused plays end in raise with no write on the path; accepted plays remove exactly that card once from '
              'exactly the named seat\'s hand, add it once to the played cards and to the trick; nothing else in the package mutates hands or '
              'played cards. Conservation is inductive from these.',
         ref='4/C05'),
     'C06': dict(
-        technique='static analysis: use analysis (suit identity only) + folding of available_cards on every hand-pattern x lead class; path summaries of the wrappers; call-site provenance for RandomPlay and the client',
-        text='available_cards equals the follow-suit rule on every hand pattern of a 6-card pool x each of the 52 cards as the card led (and no '
-             'lead); a use analysis (cards reach only suit-identity tests and container operations) makes the patterns exhaustive, otherwise no '
-             'verdict unless a counterexample is found; current_available_cards is folded on (current trick of 0..3 cards, 5 trump denominations, '
+        technique='static analysis: complete play-outs of the folded engines against an oracle; folding of available_cards on every hand-pattern x lead class, again on opaque ranks; path summaries of the wrappers; call-site provenance for RandomPlay and the client',
+        text='(R4) on the complete play-outs the playable sets advertised by the table manager\'s engine and by the replicas (own hand, dummy) are the follow-suit sets at every turn.  available_cards equals the follow-suit rule on every hand pattern of a 6-card pool x each of the 52 cards as the card led (and no '
+             'lead); the patterns are exhaustive because the same enumeration is folded again on cards whose rank is an OPAQUE value (any look at a rank '
+             'leaves the abstraction -> analysis error); current_available_cards is folded on (current trick of 0..3 cards, 5 trump denominations, '
              'hand patterns): the suit led is that of the FIRST card, trump is irrelevant; wrappers pass the right hand; RandomPlay returns '
              'random.choice over current_available_cards(hand) of its own argument; on the communication skeleton the bundled client always hands '
              'its policy the hand of the seat on turn (own / dummy). Rests on C05 (rule .D).',
@@ -156,13 +156,13 @@ SKEL_NOTE = (COMMON_NOTE + ' Additionally trusted: the engine stubs of sa.skelet
              'CPython semantics of Queue/Barrier/Event, Kahn determinacy (schedule independence under the discipline rule); extra scheduling policies '
              'are a cross-check of that theorem on identical configurations.')
 CLAIMS['C08'] = dict(
-    technique=SKEL + '; KPN-discipline who-may-call inventory; provenance of every record key in JsonLogWriter.write',
+    technique=SKEL + '; KPN-discipline who-may-call inventory; whole-document fold of the log writer and reader',
     text='PARTIAL. Decided for every role configuration (dealer x declarer x trick-winner patterns x auction lengths x passed-out x multi-board sessions): '
          'the arguments handed to the log writer for board k are the configured id/dealer/dda and the ORIGINAL deal object (the play engine consumes a '
          'copy), the call and card tokens exactly as the seats sent them, the contract of the auction engine with the configured vulnerability, the trick '
          'count of DECLARER\'s side, scores {declarer side: calc_score(contract, those tricks), other: its negation}, None/None/zeros when passed out, one '
-         'record per board in order; identical under every scheduling policy; no random draw for configured values; every record key of the writer is '
-         'computed from the parameter of its role. NOT decided: the JSON text (C12), scoring arithmetic (C07), legality (C01-C06).',
+         'record per board in order; identical under every scheduling policy; no random draw for configured values; (R8) what the writer is handed is what the document holds: board sequences with pairwise different parameter values written through one '
+         'writer (real code folded), parsed and read back, every field equal. The session model has real trick counts (a 0-trick result is falsy) and the REAL Contract class behind the contract stub. NOT decided: the JSON text (C12), scoring arithmetic (C07), legality (C01-C06).',
     ref='4/C08', note=SKEL_NOTE)
 CLAIMS['C09'] = dict(
     technique='static analysis: Kahn-process-network discipline as a who-may-call / allowed-operations inventory of every Queue, Barrier and Event; token exhaustiveness; ' + SKEL,
@@ -185,7 +185,7 @@ CLAIMS['C11'] = dict(
     technique='static analysis: who-may-write / no-override rule for the shared play state machine; path summaries of both play_card_by_player overrides on every situation (reuse of C05); ' + SKEL + ' with the bundled Client as the four peers',
     text='Replicas share one state machine (state written only by PlayingPhase, no override of play_card/_record/_set_next_leader/calc_highest/has_done, the '
          'unmodified card handed over exactly once); the observer accepts whenever the full engine accepts (all seat/role/holding/disclosure situations) - '
-         'agreement is then inductive over the public plays. For every role configuration of a whole session with the bundled client: mirrors are built '
+         'agreement is then inductive over the public plays; (R5) four replicas in lock-step with the table manager\'s engine through complete play-outs of 52 cards (each engine with its own card objects) agree after every card. For every role configuration of a whole session with the bundled client: mirrors are built '
          'from the announced dealer/vulnerability/contract/own hand/disclosed dummy, every call and card a mirror is fed is the one the table manager applied '
          'at that step, no client is answered ERROR, clients finish iff the server does, and at the end of each board the four mirrors hold the table '
          'manager\'s calls, contract, cards, trick number, leader, turn. NOT decided: card/call values inside the mirrors (opaque; C19).',
@@ -194,9 +194,9 @@ CLAIMS['C20'] = dict(
     technique='static analysis: exhaustive abstract interpretation of PlayerThread._connect over (seat table 3^4) x (seat x team x version) against the admission specification; path rule (exactly one verdict signal); one-shot handshake discipline; abstract admission sessions for orders of arrival',
     text='All 81 x 36 (table, request) transitions of _connect: wrong version / taken seat / partner under another name => ERROR reply, connection closed, table '
          'unchanged; else seat recorded and `<Seat> <team> seated`; always exactly one verdict signal; Teams line = table[N], table[E]. Team names are used '
-         'only through ==/!=/None tests, so three names cover all orderings. Accept loop = one-shot handshake. Scenarios: all orders of the four valid '
+         'only through ==/!=/None tests (also inside the helper methods they are handed to), so six representative names cover all orderings. Accept loop = one-shot handshake. Scenarios: all orders of the four valid '
          'requests, rejected requests inserted at every stage, simultaneous arrival under several schedules: verdicts follow the specification in acceptance '
-         'order, one client per seat, partners share a name, everyone gets Teams then "Start of board", the first board is played.',
+         'order, one client per seat, partners share a name, everyone gets Teams then "Start of board", the first board is played. Rests on the framing rules of C19 (non-ASCII names arrive intact).',
     ref='4/C20', note=SKEL_NOTE)
 
 PENDING_REASON = 'check under construction in this session (static rules designed in DESIGN.md section 4, not yet registered)'
